@@ -108,11 +108,9 @@ def run_replay(prop, sets, tier, seed, sweep):
     bindir = C.build_harness()
     paths = [p for (_, p, m) in sets if m["records"] > 0]
     report = os.path.join(C.WORK, "replay-%s-%s-%d.json" % (prop, tier, os.getpid()))
-    cat = subprocess.Popen(["zcat"] + paths, stdout=subprocess.PIPE)
     cmd = [os.path.join(bindir, "replay"), "--props", prop, "--sweep", sweep, "--seed", str(seed), "--out", report,
            "--threads", str(C.NCPU)]
-    p = subprocess.run(cmd, stdin=cat.stdout, stdout=subprocess.PIPE, stderr=subprocess.PIPE, text=True)
-    cat.wait()
+    p = C.run_on_records(paths, cmd)
     if p.returncode == 2 or (p.returncode != 0 and not os.path.exists(report)):
         if p.returncode < 0 or p.returncode >= 128 or p.returncode not in (0, 2):
             # the library aborted (debug-build UB check) or crashed while replaying valid spec states
